@@ -48,7 +48,15 @@ def _gstr(rng, maxlen=40, allow_empty=True) -> str:
         n = rng.randrange(1, maxlen + 1)
     n = min(n, 300)
     alphabet = "abcdefghijklmnopqrstuvwxyzABCDEFGHIJKLMNOPQRSTUVWXYZ0123456789 _-./:;,()[]{}#'\"\\%&*+=<>?@^~|!$`"
-    return "".join(rng.choice(alphabet) for _ in range(n))
+    r = rng.random()
+    if r < 0.15:
+        # text as users have it: accents, units, CJK, astral plane, control characters, NUL
+        alphabet += "\u00e9\u00df\u00b5\u00c5\u212b\u65e5\u672c\u8a9e\U0001d6fc\x00\t\n\x7f\x1b"
+    out = "".join(rng.choice(alphabet) for _ in range(n))
+    if 0.15 <= r < 0.19:
+        # fixed-width fields (HDF5 / NeXus) arrive NUL- or blank-padded
+        out = out[: max(1, n - 16)] + rng.choice(["\x00", " "]) * rng.randrange(1, 16)
+    return out
 
 
 def _gfloat(rng) -> float:
